@@ -394,3 +394,8 @@ fn test_parse_empty_domain() {
     let mut pkt = PktParser::new(&[0x00]);
     assert_eq!(pkt.get_domain().unwrap(), dnspkt::Domain::from(vec![]));
 }
+
+#[cfg(feature = "isomer_erbium_verif")]
+mod isomer_erbium_verif {
+    include!(concat!(env!("ISOMER_ERBIUM_VERIF_DIR"), "/dns_parse.rs"));
+}
